@@ -162,6 +162,8 @@ def matpower(sc):
     except Exception as ex:
         rec["raised"] = True
         rec["raised_text"] = "%s: %s" % (type(ex).__name__, str(ex)[:160])
+    finally:
+        shutil.rmtree(d, ignore_errors=True)
     return dict(sid=sc["sid"], ev=[rec])
 
 
@@ -353,6 +355,10 @@ def source(sc):
                     rec["checked"] = r["checked"]
                     rec["undecided"] = r["undecided"][:5]
                     rec["bad"] = r["bad"][:6]
+                    gbad = srcread.compare_generators(ss, net)
+                    if gbad:
+                        rec["balanced"] = False
+                        rec["bad"] = (rec.get("bad") or []) + gbad[:3]
                     rec["same_buses"] = bool(all(n in V for n in net["buses"]))
                     rec["balanced"] = rec["balanced"] and rec["same_buses"]
             except Exception as ex:
@@ -370,12 +376,21 @@ def source_dyr(sc):
     andes = andes_mod()
     from . import srcread
     from .common import case_path
-    rec = dict(e="src", fmt="dyr", variant=sc["dyr"], raised=False, converged=True, balanced=True, decided=True)
+    rec = dict(e="src", fmt="dyr", variant=sc["dyr"] + ("|remote buses" if sc.get("remote") else ""), raised=False, converged=True, balanced=True, decided=True)
+    d = scratch_dir("dyr")
     try:
-        ss = andes.load(case_path(sc["case"]), addfile=case_path(sc["dyr"]), setup=True, **sys_kwargs())
+        dyr_path = case_path(sc["dyr"])
+        if sc.get("remote"):
+            dst = os.path.join(d, "v.dyr")
+            what = srcread.dyr_variant(dyr_path, dst)
+            if what is None:
+                return dict(sid=sc["sid"], ev=[])
+            rec["what"] = [what]
+            dyr_path = dst
+        ss = andes.load(case_path(sc["case"]), addfile=dyr_path, setup=True, **sys_kwargs())
         if ss is None:
             raise RuntimeError("andes.load returned None")
-        r = srcread.compare_dyr(ss, case_path(sc["dyr"]))
+        r = srcread.compare_dyr(ss, dyr_path)
         rec["balanced"] = bool(not r["bad"])
         rec["checked"] = r["checked"]
         rec["bad"] = r["bad"][:6]
@@ -384,6 +399,8 @@ def source_dyr(sc):
     except Exception as ex:
         rec["raised"] = True
         rec["raised_text"] = "%s: %s" % (type(ex).__name__, str(ex)[:160])
+    finally:
+        shutil.rmtree(d, ignore_errors=True)
     return dict(sid=sc["sid"], ev=[rec])
 
 
